@@ -1,7 +1,7 @@
 """C15 (and parts of C08/C09): pymtl3/dsl component metadata functions."""
 import ast, os
 from pyvc.contracts import Contract, Case, Loop
-from pyvc.symexec import IntT
+from pyvc.symexec import IntT, register_spec_fun
 from pyvc.symcoll import ObjK, PairOf, SetOf, DictOf, CompT
 
 L={i:f'pymtl3/dsl/ComponentLevel{i}.py' for i in range(1,8)}
@@ -59,9 +59,26 @@ def loops_for(level):
             'm._dsl.upblks':Loop(invariant=hk('all_upblk_reads')+hk('all_upblk_writes')+hk('all_upblk_calls'),modifies=['s._dsl.all_upblk_reads','s._dsl.all_upblk_writes','s._dsl.all_upblk_calls'])}
   return {}
 
+def collect_contracts():
+  """ComponentLevel1._collect_vars, the inverse of its _uncollect_vars (C15: adding a component contributes exactly its own metadata)."""
+  return [Contract(f'{L[1]}::ComponentLevel1._collect_vars', view={'s':TopT,'m':MT},
+    cases=[Case('component', requires='True',
+      ensures="s._dsl.all_upblks == old(s._dsl.all_upblks) | m._dsl.upblks and "
+              "dom(s._dsl.all_upblk_hostobj) == old(dom(s._dsl.all_upblk_hostobj)) | m._dsl.upblks and "
+              "forall(k, implies(k in m._dsl.upblks, getv(s._dsl.all_upblk_hostobj, k) == ident(m))) and "
+              "forall(k, implies(k in dom(s._dsl.all_upblk_hostobj) and not (k in m._dsl.upblks), getv(s._dsl.all_upblk_hostobj, k) == old(getv(s._dsl.all_upblk_hostobj, k)))) and "
+              "s._dsl.all_U_U_constraints == old(s._dsl.all_U_U_constraints) | m._dsl.U_U_constraints",
+      source="C15: 'all queryable design metadata ... equals ... that of a design constructed from scratch': collecting a component adds exactly its update blocks (hosted by it) and its U-U constraints")],
+    modifies=['s._dsl.all_upblks','s._dsl.all_upblk_hostobj','s._dsl.all_U_U_constraints'], returns=None,
+    loops={'in m._dsl.upblks':Loop(invariant=["dom(s._dsl.all_upblk_hostobj) == pre(dom(s._dsl.all_upblk_hostobj)) | seen",
+              "forall(k, implies(k in seen, getv(s._dsl.all_upblk_hostobj, k) == ident(m)))",
+              "forall(k, implies(k in dom(s._dsl.all_upblk_hostobj) and not (k in seen), getv(s._dsl.all_upblk_hostobj, k) == pre(getv(s._dsl.all_upblk_hostobj, k))))"],
+              modifies=['s._dsl.all_upblk_hostobj'])},
+    property_ids=('C15',), sample=False, note="only the level-1 part of _collect_vars (levels 2..4 call super() into the function-call closure of level 2, which is not under contract)")]
+
 def contracts(repo):
   facts=level_facts(); defs=defining_levels(repo); top=max(defs) if defs else None
-  cs=[]
+  cs=collect_contracts()
   for lv in defs:
     levels=[l for l in facts if l<=lv]
     if lv==top: levels=list(facts)          # the most derived override answers for every level (nothing above it removes the rest)
@@ -107,3 +124,9 @@ def register(reg):
     reg.declare_class(f'ComponentLevel{i}',L[i],bases=((f'ComponentLevel{i-1}',) if i>1 else ()))
   reg.declare_class('Component',COMP,bases=('ComponentLevel7',))
   for c in contracts(reg.repo): reg.add(c)
+
+def _ident(ex,a,st):
+  from pyvc.values import Opq
+  from pyvc.symcoll import to_obj
+  return Opq(to_obj(a[0],st),'obj')
+register_spec_fun('ident',_ident,lambda x: x)
